@@ -124,9 +124,12 @@ def _premises(G):
 
 
 def _impl_net(net, view, stoich):
+    return _impl_H(_build(net), view, stoich)
+
+
+def _impl_H(H, view, stoich):
     from synkit.CRN.Topo.canon import CRNCanonicalizer
     from synkit.CRN.Topo.automorphism import CRNAutomorphism
-    H = _build(net)
     rank = _table(H)
     inc = view == "bip"
     C = CRNCanonicalizer(H, include_rule=inc, include_stoich=stoich)
@@ -156,8 +159,43 @@ def _impl_net(net, view, stoich):
             _premises(G)]
 
 
+def _add_extra(H, net0, net1):
+    """mutate H (built from net0) into net1 = net0 + further reactions, the way _build would have added them"""
+    for eid, rule, l, r in net1["rxns"][len(net0["rxns"]):]:
+        H.add_rxn([tuple(x) for x in l], [tuple(x) for x in r], rule=rule, edge_id=eid)
+
+
+def _touch(H, view, stoich, intids):
+    """an analysis whose answer is not part of the observable (integer_ids=True is outside the model): run it anyway,
+    it exercises whatever state the hypergraph object or the module keeps between analyses"""
+    from synkit.CRN.Topo.canon import CRNCanonicalizer
+    from synkit.CRN.Topo.automorphism import CRNAutomorphism
+    inc = view == "bip"
+    CRNCanonicalizer(H, include_rule=inc, include_stoich=stoich, integer_ids=intids).summary()
+    CRNAutomorphism(H, include_rule=inc, include_stoich=stoich, integer_ids=intids).summary(max_count=10 ** 9, timeout_sec=None)
+
+
+def _impl_seq(case):
+    """ONE hypergraph object analysed by a sequence of (view, stoich, integer_ids) configurations, then mutated
+    (reactions added) and analysed again; the model evaluates every step from scratch"""
+    net0 = case["nets"][0]
+    H = _build(net0)
+    out = []
+    for k, net in enumerate(case["nets"]):
+        if k > 0:
+            _add_extra(H, case["nets"][k - 1], net)
+        for view, st, intids in case["steps"]:
+            if intids:
+                _touch(H, view, st, True)
+            else:
+                out.append(_impl_H(H, view, st))
+    return out
+
+
 def impl(case):
     _saturate()
+    if case.get("steps"):
+        return _impl_seq(case)
     return [_impl_net(n, case["view"], case["stoich"]) for n in case["nets"]]
 
 
@@ -176,6 +214,10 @@ def _coq_net(net):
 
 
 def coq_case(case):
+    if case.get("steps"):
+        terms = ["run_net %s %s %s" % (cbool(view == "bip"), cbool(st), _coq_net(net))
+                 for net in case["nets"] for view, st, intids in case["steps"] if not intids]
+        return "L %s" % clist(terms)
     return "run_case %s %s %s" % (cbool(case["view"] == "bip"), cbool(case["stoich"]), clist([_coq_net(n) for n in case["nets"]]))
 
 
@@ -193,6 +235,26 @@ def _isos(G1, G2, nkey, ekey, limit=None):
     a2 = {(u, v): ekey(d) for u, v, d in G2.edges(data=True)}
     if sorted(map(repr, nk1.values())) != sorted(map(repr, nk2.values())):
         return []
+    # assignment order: breadth-first over the underlying undirected graph, so that every node (but the first of a
+    # component) is constrained by an already assigned neighbour; still plain back-tracking, no refinement
+    adj = {v: set() for v in n1}
+    for (u, v) in a1:
+        adj[u].add(v)
+        adj[v].add(u)
+    order, seen = [], set()
+    for s0 in n1:
+        if s0 in seen:
+            continue
+        queue = [s0]
+        seen.add(s0)
+        while queue:
+            x = queue.pop(0)
+            order.append(x)
+            for y in sorted(adj[x], key=repr):
+                if y not in seen:
+                    seen.add(y)
+                    queue.append(y)
+    n1 = order
     MISS = object()
     out = []
     m = {}
@@ -257,8 +319,53 @@ def _collides(net):
     return bool(set(H.species) & set(H.edges.keys()))
 
 
+def _answers(H, view, st, intids):
+    from synkit.CRN.Topo.canon import CRNCanonicalizer
+    from synkit.CRN.Topo.automorphism import CRNAutomorphism
+    inc = view == "bip"
+    C = CRNCanonicalizer(H, include_rule=inc, include_stoich=st, integer_ids=intids)
+    s = C.summary()
+    A = CRNAutomorphism(H, include_rule=inc, include_stoich=st, integer_ids=intids).summary(max_count=10 ** 9, timeout_sec=None)
+    key = lambda G: (sorted((repr(n), repr(sorted(d.items(), key=repr))) for n, d in G.nodes(data=True)),
+                     sorted((repr(u), repr(v), repr(sorted(d.items(), key=repr))) for u, v, d in G.edges(data=True)))
+    return dict(view=key(C.G), canon=key(s["canon_graph"]), count=s["automorphism_count"],
+                orbits=sorted(sorted(map(repr, o)) for o in s["orbits"]),
+                vf2_count=A["automorphism_count"], vf2_orbits=sorted(sorted(map(repr, o)) for o in A["orbits"]))
+
+
+def _oracle_seq(case):
+    """every analysis of the sequence on the shared, later mutated, hypergraph object must answer exactly what a fresh
+    object built for that network answers (view, canonical graph, counts, orbits)"""
+    fails = []
+    H = _build(case["nets"][0])
+    for k, net in enumerate(case["nets"]):
+        if k > 0:
+            _add_extra(H, case["nets"][k - 1], net)
+        for j, (view, st, intids) in enumerate(case["steps"]):
+            got = _answers(H, view, st, intids)
+            ref = _answers(_build(net), view, st, intids)
+            bad = [f for f in got if got[f] != ref[f]]
+            if bad:
+                fails.append(dict(clause="reuse-stale", detail="analysis %d of the sequence %r on ONE hypergraph object (network %d: %s) differs from a "
+                                  "fresh object in %s: shared %r, fresh %r" % (j, case["steps"], k, _fmt_net(net), bad,
+                                                                               {f: got[f] for f in bad[:2]}, {f: ref[f] for f in bad[:2]})))
+                return fails
+    return fails
+
+
 def oracle(case):
     _saturate()
+    if case.get("steps"):
+        fl = _oracle_seq(case)
+        if fl:
+            return fl
+        # the per-network clauses on every configuration of the sequence
+        for view, st, intids in case["steps"]:
+            if not intids:
+                fl = oracle(dict(case, steps=None, view=view, stoich=st))
+                if fl:
+                    return fl
+        return []
     from synkit.CRN.Topo.canon import CRNCanonicalizer
     from synkit.CRN.Topo.automorphism import CRNAutomorphism
     from synkit.CRN.Topo.wl_canon import WLCanonicalizer
@@ -331,6 +438,8 @@ def oracle(case):
 def shrink(case, fl):
     """drop nets (keeping net 0) and then reactions while the same clause keeps failing"""
     clause = fl.get("clause")
+    if case.get("steps"):
+        return case
 
     def bad(c):
         try:
@@ -362,6 +471,9 @@ def shrink(case, fl):
 
 
 def neighbours(case, rng):
+    if case.get("steps"):
+        return [dict(case, steps=[stp], name="single-step") for stp in case["steps"]] + \
+               [dict(case, steps=list(reversed(case["steps"])), name="reversed-steps")]
     out = []
     for i, n in enumerate(case["nets"]):
         out.append(dict(case, nets=[n], rel=["base"], name="single-net"))
@@ -561,19 +673,30 @@ def _ring(n, form, coeffs=None):
             rxs.append((((a, c),), ((b, 1),)))
         elif form == "cat":
             rxs.append((((a, c), ("X", 1)), ((b, 1), ("X", 1))))
+        elif form == "pcat":
+            rxs.append((((a, c), ("W%d" % i, 1)), ((b, 1), ("W%d" % i, 1))))
         elif form == "dimer":
             rxs.append((((a, 2),), ((b, c),)))
         elif form == "rev":
             rxs.append((((a, c),), ((b, 1),)))
             rxs.append((((b, 1),), ((a, c),)))
-    return sp + (["X"] if form == "cat" else []), rxs
+    return sp + (["X"] if form == "cat" else []) + (["W%d" % i for i in range(n)] if form == "pcat" else []), rxs
 
 
-def _ring_cases(rng, sizes):
+def _names(rng, k):
+    """k distinct species names from one of the pools (extended with suffixed copies when the pool is too small)"""
+    pool = list(rng.choice(NAME_POOLS))
+    ext = list(dict.fromkeys(pool + [x + y for y in ("x", "y", "k") for x in pool]))     # distinct, never of the form <rule>_<n>
+    return rng.sample(ext, k)
+
+
+def _ring_cases(rng, sizes, big_forms=("uni", "pcat"), more=4):
     out = []
     for n in sizes:
-        for form in ("uni", "cat", "dimer", "rev"):
+        for form in ("uni", "cat", "pcat", "dimer", "rev"):
             if form == "rev" and n > 4:
+                continue
+            if n >= 6 and form not in big_forms:
                 continue
             sp, rxs = _ring(n, form)
             for view, st in CONFIGS:
@@ -582,8 +705,14 @@ def _ring_cases(rng, sizes):
                 rot = sp[1:n] + sp[:1] + sp[n:]
                 nets.append(_variant(rxs, rng, sp, rot))
                 rel.append("variant")
-                nets.append(_variant(rxs, rng, sp, rng.sample(NAME_POOLS[0] + ["I", "J"], len(sp)), explicit_ids=True))
+                nets.append(_variant(rxs, rng, sp, _names(rng, len(sp)), explicit_ids=True))
                 rel.append("variant")
+                if n >= 5 or form == "pcat":
+                    # symmetric branching points with several equal-size cells below them: many renamings, so that every
+                    # order of the names relative to each other and to the generated reaction ids occurs
+                    for _ in range(more):
+                        nets.append(_variant(rxs, rng, sp, _names(rng, len(sp)), explicit_ids=rng.random() < 0.3))
+                        rel.append("variant")
                 # the same skeleton with one / two coefficients raised: differ only in stoichiometry
                 c1 = [1] * n
                 c1[0] = 2
@@ -682,6 +811,61 @@ def _collision_cases():
     return [_case("collision", "bip", True, [base, ren], ["base", "variant"])]
 
 
+STEP_SEQS = [
+    [("bip", False, False), ("bip", True, False)],
+    [("bip", True, False), ("bip", False, False)],
+    [("sp", True, False), ("bip", False, False), ("bip", True, False), ("sp", True, False)],
+    [("bip", True, True), ("bip", True, False), ("bip", False, True), ("bip", False, False)],
+    [("bip", False, False), ("bip", True, True), ("bip", True, False)],
+    [("bip", True, False), ("sp", True, False), ("bip", False, False), ("bip", True, False)],
+]
+
+
+def _seq_cases(rng, nrand):
+    """sequences of analyses with different options on ONE hypergraph object (then the object is mutated and analysed
+    again); coefficients > 1 so that the stoichiometry option matters"""
+    bases = [
+        ([((("A", 2), ("B", 1)), (("C", 1),))], ((("C", 1),), (("A", 3),))),
+        ([((("A", 2),), (("C", 1),)), ((("B", 1),), (("C", 1),))], ((("B", 2),), (("C", 1),))),
+        ([((("A", 1),), (("B", 2),)), ((("B", 2),), (("A", 1),))], ((("A", 2),), (("B", 1),))),
+        ([((("A", 1), ("X", 1)), (("B", 1), ("X", 1))), ((("B", 2),), (("A", 1),))], ((("X", 2),), ())),
+        ([((("A", 2),), (("B", 1),)), ((("B", 2),), (("C", 1),)), ((("C", 2),), (("A", 1),))], ((("A", 1),), (("C", 2),))),
+        ([((("A", 1),), (("C", 1),)), ((("B", 2),), (("C", 1),)), ((("D", 1),), (("C", 1),))], ((("C", 1),), (("D", 2),))),
+        ([((("A", 3), ("B", 1)), (("A", 1), ("C", 2)))], ((("C", 2),), (("B", 1),))),
+        ([((), (("A", 2),)), ((("A", 2),), ())], ((("A", 1),), (("A", 2),))),
+    ]
+    out = []
+    for rxs, extra in bases:
+        for steps in STEP_SEQS:
+            nets = [_net_of(rxs), _net_of(rxs + [extra])]
+            out.append(dict(kind="seq", view=steps[0][0], stoich=steps[0][1], nets=nets, rel=["base", "other"],
+                            steps=[list(x) for x in steps]))
+    for _ in range(nrand):
+        sp = NAME_POOLS[0][:rng.randint(2, 4)]
+        rxs = _rand_rxs(rng, sp, rng.randint(1, 3), [1, 2, 2, 3])
+        extra = _rand_rxs(rng, sp, 1, [1, 2, 3])[0]
+        steps = [[rng.choice(["bip", "bip", "sp"]), rng.random() < 0.5, rng.random() < 0.25] for _ in range(rng.randint(2, 4))]
+        if all(x[2] for x in steps):
+            steps[-1][2] = False
+        out.append(dict(kind="seq", view=steps[0][0], stoich=steps[0][1], nets=[_net_of(rxs), _net_of(rxs + [extra])],
+                        rel=["base", "other"], steps=steps))
+    return out
+
+
+def _long_cases(rng):
+    """>= 10 reactions: generated ids r_1 .. r_11 ('r_10' < 'r_2' in string order), canonical ids with two digits"""
+    out = []
+    sp, rxs = _ring(11, "uni")
+    for view, st in (("bip", True), ("sp", True)):
+        nets = [_net_of(rxs), _variant(rxs, rng, sp, _names(rng, len(sp))), _variant(rxs, rng, sp, sp[3:] + sp[:3], explicit_ids=True)]
+        out.append(_case("long", view, st, nets, ["base", "variant", "variant"]))
+    chain = [(((sp[i], 1),), ((sp[i + 1], 1 + (i == 9)),)) for i in range(10)]
+    for view, st in CONFIGS:
+        nets = [_net_of(chain), _variant(chain, rng, sp, _names(rng, len(sp)))]
+        out.append(_case("long", view, st, nets, ["base", "variant"]))
+    return out
+
+
 def gen_cases(tier, rng):
     cases = []
     # exhaustive small scope: both tiers
@@ -697,13 +881,15 @@ def gen_cases(tier, rng):
             cases.append(_case("exh3", view, st, nets, rel))
     cases += _special_cases(rng)
     cases += _collision_cases()
+    cases += _long_cases(rng)
+    cases += _seq_cases(rng, 40 if tier == "quick" else 400)
     if tier == "quick":
-        cases += _ring_cases(rng, [2, 3, 4, 5])
+        cases += _ring_cases(rng, [2, 3, 4, 5, 6])
         cases += _star_cases(rng, [2, 3])
         cases += _digraph_cases(rng, 150)
         nrand, msp, mrx = 360, 6, 5
     else:
-        cases += _ring_cases(rng, [2, 3, 4, 5, 6])
+        cases += _ring_cases(rng, [2, 3, 4, 5, 6, 7], big_forms=("uni", "cat", "pcat", "dimer"), more=8)
         cases += _star_cases(rng, [2, 3, 4])
         cases += _digraph_cases(rng, 1500)
         nrand, msp, mrx = 4000, 6, 5
